@@ -739,7 +739,7 @@ func (p *routePlace) runRoute(idx int) {
 	aerr := mon.Apply(p.t, cmd)
 	if aerr == nil {
 		defer func() {
-			if err := mon.Apply(p.t, "delRoute "+key); err != nil {
+			if err := p.t.DelRoute(key); err != nil {
 				panic(err)
 			}
 		}()
@@ -860,7 +860,7 @@ func (p *routePlace) runDest(idx int) {
 	aerr := mon.Apply(p.t, cmd)
 	if aerr == nil {
 		defer func() {
-			if err := mon.Apply(p.t, "delRoute "+key); err != nil {
+			if err := p.t.DelRoute(key); err != nil {
 				panic(err)
 			}
 		}()
@@ -1282,7 +1282,7 @@ func (p *aggRoutePlace) run(idx int) {
 	fr, oerr := realCase.Spec.oracle()
 	aerr := mon.Apply(p.t, cmd)
 	if aerr == nil {
-		defer mon.Apply(p.t, "delRoute "+rkey)
+		defer p.t.DelRoute(rkey)
 	}
 	if oerr != nil || aerr != nil {
 		if oerr == nil {
@@ -1530,7 +1530,7 @@ func main() {
 	for pl, d := range spent {
 		secs[pl] = float64(d.Milliseconds()) / 1000
 	}
-	res.Set("seconds_per_place", secs)
+	res.Set("seconds_per_place_summed_over_shards", secs)
 
 	places := []string{"matcher", "matcher-aggpath", "blacklist", "route", "dest", "agg", "aggregate-routing"}
 	floorQuick := map[string]int{"matcher": 20000, "matcher-aggpath": 10000, "blacklist": 1500, "route": 1500, "dest": 1500, "agg": 1500, "aggregate-routing": 1500}
